@@ -1,6 +1,7 @@
 import Pendulum.Model.Pickle
 import Pendulum.Proofs.Pickle
 import Pendulum.Proofs.PickleGen
+import Pendulum.Proofs.IntervalGenState
 /-! # C14 — pickle, copy and deepcopy reproduce every pendulum value exactly
 
 Statements are about `Model/Pickle.lean` (what each type hands to the pickle/copy machinery and what its
@@ -584,5 +585,48 @@ theorem tz_constructors_pinned :
   ⟨FixedTimezone.init_repr_pinned, Timezone.new_repr_pinned⟩
 
 end Generated
+/-! ### The model is the code: the Interval state (`src/pendulum/interval.py`, tools/gen_interval.py → `Pendulum.Gen.Interval`)
+
+`_getstate`, `__reduce_ex__`, `__reduce__`, `__deepcopy__`, `__hash__`, `__eq__` are regenerated from the source on every run, over an
+abstract type of endpoints; these theorems tie them to `reduceIv` / `rebuildIv`. -/
+section Regenerated
+open Pendulum.IntervalGen
+open Pendulum.Gen.Interval (Ops Self EqRes)
+
+/-- `_getstate` / `__reduce_ex__` / `__reduce__` as written in the source hand the model's `reduceIv` (the endpoints swapped back
+    when the interval was built inverted and absolute) to `self.__class__`; `__deepcopy__` calls the class on the deep copies of
+    that state — the arguments of the model's `rebuildIv` -/
+theorem getstate_source_eq_model (self : Self DT) (iv : Iv) (ops : Ops DT) (protocol : Int)
+    (h1 : self.start = iv.start) (h2 : self.end_ = iv.stop) (h3 : self.absolute = iv.absolute) (h4 : self.invert = iv.invert) :
+    Gen.Interval.getstate self protocol = reduceIv iv ∧
+    Gen.Interval.reduce_ex self protocol = reduceIv iv ∧
+    Gen.Interval.reduce self = reduceIv iv ∧
+    Gen.Interval.deepcopy ops self = (ops.deepcopy (reduceIv iv).1, ops.deepcopy (reduceIv iv).2.1, (reduceIv iv).2.2) ∧
+    (∀ same, rebuildIv ops.deepcopy same (reduceIv iv) =
+      mkIv same (Gen.Interval.deepcopy ops self).1 (Gen.Interval.deepcopy ops self).2.1 (Gen.Interval.deepcopy ops self).2.2) := by
+  obtain ⟨g1, g2, g3, g4⟩ := getstate_eq self iv ops protocol h1 h2 h3 h4
+  refine ⟨g1, g2, g3, g4, fun same => ?_⟩
+  rw [g4]; rfl
+
+/-- `__hash__` and `__eq__` as written in the source use the same tuple `(start, end, absolute)`; against a non-Interval `__eq__`
+    compares `as_duration()` = `Duration(seconds=self.total_seconds())`; every arithmetic operator returns what the same operator
+    of `as_duration()` returns -/
+theorem hash_eq_source_eq_model {α : Type} (self other : Self α) :
+    Gen.Interval.hash_key self = (self.start, self.end_, self.absolute) ∧
+    (∃ l r, Gen.Interval.op_eq self (some other) = EqRes.tuples l r ∧ l = Gen.Interval.hash_key self ∧ r = Gen.Interval.hash_key other) ∧
+    (∃ d, Gen.Interval.op_eq self none = EqRes.duration_eq d ∧ d = self.total_seconds) ∧
+    Gen.Interval.as_duration self = self.total_seconds ∧
+    Gen.Interval.delegates = [("__add__", "__add__"), ("__sub__", "__sub__"), ("__mul__", "__mul__"),
+      ("__floordiv__", "__floordiv__"), ("__truediv__", "__truediv__"), ("__mod__", "__mod__"), ("__divmod__", "__divmod__")] ∧
+    Gen.Interval.aliases = [("__radd__", "__add__"), ("__rmul__", "__mul__"), ("__div__", "__floordiv__")] :=
+  hash_eq_arith_eq self other
+
+/-! non-vacuity: the state of an inverted absolute interval is handed over in the original argument order -/
+example : Gen.Interval.getstate (⟨1, 2, true, true, ⟨0, 0, 0, 0, 0, 0, 0, 0⟩, 0, 0⟩ : Self Nat) 3 = (2, 1, true) ∧
+    Gen.Interval.getstate (⟨1, 2, false, true, ⟨0, 0, 0, 0, 0, 0, 0, 0⟩, 0, 0⟩ : Self Nat) 3 = (1, 2, false) ∧
+    Gen.Interval.deepcopy ⟨fun a b => decide (a ≤ b), fun a b => decide (a ≥ b), fun _ x _ _ => .ok x, fun x => x + 10⟩
+      (⟨1, 2, true, true, ⟨0, 0, 0, 0, 0, 0, 0, 0⟩, 0, 0⟩ : Self Nat) = (12, 11, true) := by decide
+
+end Regenerated
 
 end Pendulum.Props.C14
